@@ -124,6 +124,9 @@ PAIRS = {
                 [[1, 1, 1], [2, 2], [1, 1]], (.5, 1, .25)),
     'overhang': ([[1, 2, 1], [1, 1], [2]], (0, 0, 0),
                  [[2, 2, 2], [1, 2], [1, 1, 1]], (-1, -.5, -.5)),
+    # output cells whose CENTRES lie outside the input grid (padding)
+    'padded': ([[1, 1], [2], [1, 1]], (0, 0, 0),
+               [[2, 2, 2, 2], [4, 4], [2, 2]], (-3, -3, -1)),
     'inside': ([[1, 1, 2], [2, 1], [1, 1, 1]], (0, 0, 0),
                [[1, 1], [1], [.5, .5]], (1, .5, 1)),
     'single': ([[2], [1], [4]], (0, 0, 0), [[1, 1], [1], [2, 2]],
@@ -384,6 +387,42 @@ def case_model(case):
                       f"(mapping {mapping})",
                   cex=dict(kind='model', pair=name, mapping=mapping)
                   if vd == 'cex' else None))
+    if mapping.startswith('L'):
+        # history on the SAME model object: values changed in place (index
+        # assignment and setter), interpolated again to an equal grid ->
+        # the result follows the current values
+        t1 = time.time()
+        go2 = E.meshes.TensorMesh([np.array(x, dtype=float)
+                                   for x in PAIRS[name][2]], PAIRS[name][3])
+        sig2 = sym_array('sg2', si, positive=True)
+        p2 = M.forward(sig2)
+        k0 = (0,)*len(si)
+        model.property_x[k0] = p2[k0]                   # index assignment
+        r1 = model.interpolate_to_grid(go)
+        w1 = oracle(nin, nout, model.property_x)
+        model.property_x = p2                           # setter
+        r2 = model.interpolate_to_grid(go2)
+        w2 = oracle(nin, nout, model.property_x)
+        vd = 'held'
+        for got_, want_ in ((r1.property_x, w1), (r2.property_x, w2)):
+            for j in np.ndindex(*so):
+                if symx.qt(got_[j]).eq(symx.qt(want_[j])):
+                    continue
+                v1, m = c.valid(symx.qt(got_[j]) == symx.qt(want_[j]),
+                                label='model history')
+                if v1 != 'held':
+                    vd = v1
+                    break
+            if vd != 'held':
+                break
+        obs.append(ob("after changing the values in place (index assignment, "
+                      "setter) a new interpolation to the same / an equal "
+                      "grid follows the current values", vd, group=grp,
+                      cls='UF+NRA', seconds=time.time()-t1,
+                      key="Model.interpolate_to_grid returns a stale result "
+                          "after an in-place update",
+                      cex=dict(kind='model_hist', pair=name, mapping=mapping)
+                      if vd == 'cex' else None))
     if not mapping.startswith('L'):
         # fresh context: no transcendental axioms needed here
         c = set_ctx(Ctx(timeout_ms=60000))
@@ -469,6 +508,28 @@ def replay(cex):
         return (e1 > 1e-9 or e2 > 1e-9), (
             f"real log-mode interpolate on '{cex['pair']}': vs 10**(average "
             f"of log10) {e1:.2e}; rho*sigma-1 {e2:.2e}")
+    if kind == 'model_hist':
+        hi, oi, ho, oo = PAIRS[cex['pair']]
+        gi = emg3d.TensorMesh([np.array(x, dtype=float) for x in hi], oi)
+        go = emg3d.TensorMesh([np.array(x, dtype=float) for x in ho], oo)
+        go2 = emg3d.TensorMesh([np.array(x, dtype=float) for x in ho], oo)
+        mapping = cex['mapping']
+        M = getattr(emg3d.maps, 'Map'+mapping)()
+        model = emg3d.Model(gi, property_x=M.forward(
+            rng.uniform(.5, 2, gi.shape_cells)), mapping=mapping)
+        model.interpolate_to_grid(go)
+        model.property_x[(0,)*3] = M.forward(np.array([7.5]))[0]
+        r1 = model.interpolate_to_grid(go).property_x.copy()
+        f1 = emg3d.Model(gi, property_x=model.property_x.copy(),
+                         mapping=mapping).interpolate_to_grid(go).property_x
+        model.property_x = M.forward(rng.uniform(.5, 2, gi.shape_cells))
+        r2 = model.interpolate_to_grid(go2).property_x.copy()
+        f2 = emg3d.Model(gi, property_x=model.property_x.copy(),
+                         mapping=mapping).interpolate_to_grid(go).property_x
+        d = max(np.abs(r1-f1).max(), np.abs(r2-f2).max())
+        return d > 1e-12, (f"real Model.interpolate_to_grid after in-place "
+                           f"updates vs a fresh model with the same values: "
+                           f"max diff {d:.3e}")
     if kind == 'adjoint':
         w = rng.normal(size=(3,)+tuple(so))
         u = 10**rng.uniform(-1, 1, (3,)+tuple(si))
